@@ -780,7 +780,17 @@ func iohelpLatchRules(c *core.Ctx, p *load.Prog, r1, r2, r5, r6 string) {
 				continue
 			}
 			call, ok := as.Rhs[0].(*ast.CallExpr)
-			if !ok || wire.Canon(call.Fun) != cfg.call {
+			if !ok {
+				continue
+			}
+			// any call that reads from / writes to the underlying stream
+			touches := strings.Contains(wire.Canon(call.Fun), cfg.recv+"."+cfg.field)
+			for _, a := range call.Args {
+				if wire.Canon(a) == cfg.recv+"."+cfg.field {
+					touches = true
+				}
+			}
+			if !touches {
 				continue
 			}
 			if len(as.Lhs) == 2 {
@@ -813,7 +823,7 @@ func iohelpLatchRules(c *core.Ctx, p *load.Prog, r1, r2, r5, r6 string) {
 			return true
 		})
 		c.Check(r1, cfg.fn+" latches the underlying error", f.pos(), errObj != nil && latched,
-			"the error of the underlying "+cfg.call+" must be stored into ."+"Err on the err != nil path; the generated methods report only that latch")
+			"the error of the call on the underlying "+cfg.field+" must be stored into .Err on the err != nil path; the generated methods report only that latch")
 		// it also returns the error
 		retOK := false
 		for _, s := range f.fd.Body.List {
